@@ -1,7 +1,7 @@
 #!/bin/bash
 # usage: seed_try.sh <patch.diff> <ws> <bin> [args...]  — try a seeded patch against one check binary in a scratch worktree
 P="$1"; WS="$2"; BIN="$3"; shift 3
-WT=/tmp/wt-main
+WT=${SEED_WT:-/tmp/wt-main}
 git -C $WT checkout -q -- . ; git -C $WT clean -qfd; git -C $WT checkout -q --detach $(git -C /repo rev-parse HEAD)
 git -C $WT apply "$P" || { echo "seed_try: patch does not apply"; exit 3; }
 /verif/tools/mutant_run.sh $WS $BIN $WT "$@" 2>&1 | grep -E "^\[C[0-9]|mutant_run|^C[0-9]+/|build failed|^error|regression case|panic" | cut -c1-240 | head -8
